@@ -127,9 +127,10 @@ def mean_dataset(rng):
     from pydap.model import BaseType, DatasetType, GridType
     rank = rng.randint(1, 3)
     shape = [rng.randint(1, 4) for _ in range(rank)]
-    dt = rng.choice(["i4", "i2", "f8", "f4", "u2"])
+    dt = rng.choice(["i4", "i2", "f8", "f4", "u2", "u1"])
     lo = 0 if dt[0] == "u" else -50
-    data = np.array([rng.randint(lo, 50) for _ in range(int(np.prod(shape)))], dtype=dt).reshape(shape)
+    hi = 255 if dt == "u1" else 50          # Byte: the whole range, a sum of two values may exceed 255 (no wrap-around in the mean)
+    data = np.array([rng.randint(lo, hi) for _ in range(int(np.prod(shape)))], dtype=dt).reshape(shape)
     dims = ["z", "y", "x"][-rank:]
     maps = [[rng.randint(-9, 9) + 10 * i for i in range(n)] for n in shape]
     ds = DatasetType("d")
@@ -643,7 +644,7 @@ def explore(ctx, tier, search=False):
 def run(ctx):
     ctx.rule = ("(a) per generated dataset 8 function-free valid CEs x {dds,dods,ascii,asc,das} with and without the middleware, "
                 "plus a fixed list of call-bearing / unparsable queries x paths for the routing; (b) arrays and grids of rank "
-                "1..3 (extents 1..4, five dtypes, integer-valued), every valid axis, nesting depth 1..3, alone or beside an "
+                "1..3 (extents 1..4, six dtypes incl. Byte 0..255, integer-valued), every valid axis, nesting depth 1..3, alone or beside an "
                 "ordinary projection, default axis, through the raw request and through the client's function proxy; (c) "
                 "sequences of 1..5 Int32 columns with X/Y/Z axis attributes (either case), intervals incl. min=max and empty "
                 "results, call in selection / projection position / beside a column projection; distinct by the whole case")
